@@ -239,7 +239,13 @@ func (s *serfQueries) handleInstallKey(q *Query) {
 	keyring := s.serf.config.MemberlistConfig.Keyring
 	req := keyRequest{}
 
-	err := decodeMessage(q.Payload[1:], &req)
+	var err error
+	if len(q.Payload) < 1 {
+		s.logger.Printf("[ERR] serf: Failed to decode key request: empty payload")
+		goto SEND
+	}
+
+	err = decodeMessage(q.Payload[1:], &req)
 	if err != nil {
 		s.logger.Printf("[ERR] serf: Failed to decode key request: %v", err)
 		goto SEND
@@ -281,7 +287,13 @@ func (s *serfQueries) handleUseKey(q *Query) {
 	keyring := s.serf.config.MemberlistConfig.Keyring
 	req := keyRequest{}
 
-	err := decodeMessage(q.Payload[1:], &req)
+	var err error
+	if len(q.Payload) < 1 {
+		s.logger.Printf("[ERR] serf: Failed to decode key request: empty payload")
+		goto SEND
+	}
+
+	err = decodeMessage(q.Payload[1:], &req)
 	if err != nil {
 		s.logger.Printf("[ERR] serf: Failed to decode key request: %v", err)
 		goto SEND
@@ -321,7 +333,13 @@ func (s *serfQueries) handleRemoveKey(q *Query) {
 	keyring := s.serf.config.MemberlistConfig.Keyring
 	req := keyRequest{}
 
-	err := decodeMessage(q.Payload[1:], &req)
+	var err error
+	if len(q.Payload) < 1 {
+		s.logger.Printf("[ERR] serf: Failed to decode key request: empty payload")
+		goto SEND
+	}
+
+	err = decodeMessage(q.Payload[1:], &req)
 	if err != nil {
 		s.logger.Printf("[ERR] serf: Failed to decode key request: %v", err)
 		goto SEND
